@@ -17,6 +17,7 @@ import (
 	"sort"
 	"strings"
 	"sync"
+	"time"
 
 	"google.golang.org/protobuf/proto"
 	"reduction.dev/reduction/proto/snapshotpb"
@@ -25,10 +26,21 @@ import (
 
 // ---------- quiescence barrier ----------
 
-// quiesce returns when every goroutine other than the caller is blocked (channel, mutex, select ...).
-// It is a barrier, not a sleep: the result does not depend on timing.
+// quiesce returns when every goroutine other than the caller is blocked on something only another goroutine of
+// this process can release (channel, mutex, select, condition variable). It is a barrier, not a sleep: when it
+// returns nothing can happen until the caller acts, so "a storage call is parked", "a notification is pending",
+// "nothing was published" are facts ordered after everything the previous step could cause - not the result of
+// looking once. Only states on the whitelist of blockedState count as blocked: a goroutine that is running,
+// runnable, preempted, in a system call (file I/O, waiting for a cp/mkdir child), in "IO wait" (a pipe of a child
+// process whose EOF the netpoller has not delivered yet), asleep on a timer or helping the GC will go on by itself,
+// and the barrier keeps waiting for it however long the machine takes.
+//
+// Timing: the only clock here is the wedge detector (150 s without ever settling => panic, reported by hx as the
+// failure of this case; hx's own no-progress detector is 180 s). The short sleep merely keeps the spinning barrier
+// from starving child processes on a loaded or single-CPU machine; it changes no observation.
 func quiesce() {
 	buf := make([]byte, 1<<18)
+	start := time.Now()
 	for i := 0; ; i++ {
 		runtime.Gosched()
 		n := runtime.Stack(buf, true)
@@ -44,10 +56,24 @@ func quiesce() {
 				return
 			}
 		}
-		if i > 5_000_000 {
-			panic("quiesce: goroutines never settle")
+		if i%64 == 63 {
+			time.Sleep(100 * time.Microsecond) // pacing only
+			if time.Since(start) > 150*time.Second {
+				panic("quiesce: goroutines did not settle within 150 s:\n" + string(buf[:min(n, 4000)]))
+			}
 		}
 	}
+}
+
+// blockedState: goroutine states (as printed by runtime.Stack) in which a goroutine waits for another goroutine.
+func blockedState(st string) bool {
+	for _, p := range []string{"chan receive", "chan send", "select", "sync.", "semacquire", "finalizer wait", "cleanup wait",
+		"GC worker (idle)", "GC sweep wait", "GC scavenge wait", "force gc (idle)"} {
+		if strings.HasPrefix(st, p) {
+			return true
+		}
+	}
+	return false
 }
 
 func allBlocked(dump []byte) bool {
@@ -65,8 +91,7 @@ func allBlocked(dump []byte) bool {
 			first = false
 			continue
 		}
-		st := string(line[a+1 : b])
-		if strings.HasPrefix(st, "running") || strings.HasPrefix(st, "runnable") || strings.HasPrefix(st, "syscall") {
+		if !blockedState(string(line[a+1 : b])) {
 			return false
 		}
 	}
